@@ -4,7 +4,7 @@ from spec import paging as SP
 from ..bits import BV, Aff, lit
 from ..interp import Outcome, State, Unsupported
 from ..values import UNIT, Array, Closure, Enum, Opaque, Ptr, Ref, Struct
-from .common import adt, entry_pred_is_all_zero, arg_obj, bv, declare, enum_val, eval_value, fn_site, inner, same, size_ty, sl
+from .common import newtype, adt, entry_pred_is_all_zero, arg_obj, bv, declare, enum_val, eval_value, fn_site, inner, same, size_ty, sl
 from .mapper import MAPPED, MP, PG, PTE, REC, TBL, MapperLab, table_val
 from .c20 import rec_addr
 
@@ -124,7 +124,7 @@ class Lab10(MapperLab):
 
 
 def page_half(name):
-    return Struct(PG, [Struct('addr::VirtAddr', [BV(64, [0] * 12 + sl(name, 12, 48) + [lit(name, 47)] * 16)]), UNIT])
+    return newtype(None, PG, Struct('addr::VirtAddr', [BV(64, [0] * 12 + sl(name, 12, 48) + [lit(name, 47)] * 16)]))
 
 
 def helper(chk, impl):
